@@ -1581,7 +1581,18 @@ fn gen_fuzz_case(r: &mut Rng, stats: &mut HashMap<String, usize>) -> (String, Ve
             for i in 0..depth {
                 defs.push_str(&format!("gate rec{i} a {{ rec{} a; }}\n", (i + 1) % depth));
             }
-            src = format!("{src}\n{defs}rec0 {};", p.env.qubits()[0]);
+            // the applied gate is a member of the cycle, or only leads into it (a "lasso")
+            let mut entry = "rec0".to_string();
+            if r.chance(1, 2) {
+                let tail = r.range(1, 2);
+                let into = r.below(depth);
+                for i in (0..tail).rev() {
+                    let next = if i + 1 == tail { format!("rec{into}") } else { format!("lead{}", i + 1) };
+                    defs.push_str(&format!("gate lead{i} a {{ h a; {next} a; }}\n"));
+                }
+                entry = "lead0".to_string();
+            }
+            src = format!("{src}\n{defs}{entry} {};", p.env.qubits()[0]);
             "recursion"
         }
         6 => {
